@@ -1,9 +1,294 @@
 import WhVerif.Model.C06
+import WhVerif.Lemmas.C06Lev
+import WhVerif.Lemmas.C06Realign
+import WhVerif.Lemmas.C06Cigar
+import WhVerif.Lemmas.C06Iter
+import WhVerif.Lemmas.C06Locate
+/-!
+# C06 — allele detection never assigns the wrong allele to an error-free read: theorems about the model
+
+`f14` / `fx` select the as-is or the repaired behaviour of the defects found by this property's check
+(see `Model/C06.lean:Fixes`); theorems that do not mention a specific value hold for both.
+-/
 namespace WhVerif.Props.C06
 open WhVerif.C06
 
-/-- an empty CIGAR consumes nothing (placeholder until the real theorems land) -/
-theorem prefixLength_nil (f : Bool) (k : Nat) (h : 0 < k) : cigarPrefixLength f [] k = .ok (0, 0) := by
-  simp [cigarPrefixLength, prefixGo, h]
+/-! ## `realign_sound` — the decision of `realign` -/
+
+/-- symbolic ALT alleles (`<DEL>` …) are never decided -/
+theorem realign_symbolic (f14 : Bool) (dist : Seq → Seq → Nat) (v : Variant) (r : Option (List Nat)) (query : Seq)
+    (cigar : Cigar) (i consumed : Nat) (qp : Int) (reference : Seq) (oh : Nat) (hsym : isSymbolic v = true) :
+    realign f14 dist v r query cigar i consumed qp reference oh = .ok none := by
+  simp [realign, hsym]
+
+/-- `realign_sound`, part 1: if the window's query is strictly closer to padded allele `h` than to every other padded
+allele, `realign` returns `h`. -/
+theorem realign_sound_strict (f14 : Bool) (dist : Seq → Seq → Nat) (v : Variant) (query : Seq) (cigar : Cigar)
+    (i consumed : Nat) (qp : Int) (reference : Seq) (oh : Nat) (w : Window)
+    (hsym : isSymbolic v = false) (hw : window f14 v query cigar i consumed qp reference oh = .ok w)
+    (h : Nat) (ph : Seq) (hh : w.padded[h]? = some ph)
+    (hs : ∀ k pk, w.padded[k]? = some pk → k ≠ h → dist w.query ph < dist w.query pk) :
+    realign f14 dist v none query cigar i consumed qp reference oh = .ok (some h) := by
+  simp only [realign, hsym, hw]
+  apply decideAllele_strict _ h (dist w.query ph)
+  · exact (mem_distances_none dist w h _).2 ⟨ph, hh, rfl⟩
+  · rw [distances_none]; exact enumFrom_map_nodup _ _ _
+  · intro y hy hne
+    obtain ⟨k, d⟩ := y
+    obtain ⟨pk, hk, rfl⟩ := (mem_distances_none dist w k d).1 hy
+    apply hs k pk hk
+    intro hkh; subst hkh
+    rw [hh] at hk; cases hk; exact hne rfl
+
+/-- `realign_sound`, part 2 (never the other allele; a tie is "cannot decide"): whenever `realign` returns an allele,
+that allele's padded sequence is strictly closer to the query than every other padded allele. -/
+theorem realign_sound_only_strict (f14 : Bool) (dist : Seq → Seq → Nat) (v : Variant) (query : Seq) (cigar : Cigar)
+    (i consumed : Nat) (qp : Int) (reference : Seq) (oh : Nat) (w : Window)
+    (hw : window f14 v query cigar i consumed qp reference oh = .ok w) (h : Nat)
+    (hr : realign f14 dist v none query cigar i consumed qp reference oh = .ok (some h)) :
+    ∃ ph, w.padded[h]? = some ph ∧ ∀ k pk, w.padded[k]? = some pk → k ≠ h → dist w.query ph < dist w.query pk := by
+  unfold realign at hr
+  split at hr
+  · simp at hr
+  · rw [hw] at hr
+    obtain ⟨d, hm, hall⟩ := decideAllele_some _ h hr
+    obtain ⟨ph, hph, rfl⟩ := (mem_distances_none dist w h d).1 hm
+    refine ⟨ph, hph, ?_⟩
+    intro k pk hk hne
+    rcases hall (k, dist w.query pk) ((mem_distances_none dist w k _).2 ⟨pk, hk, rfl⟩) with heq | hlt
+    · simp only [Prod.mk.injEq] at heq; exact absurd heq.1 hne
+    · exact hlt
+
+/-- `realign_sound`, tie: a bi-allelic variant whose two padded alleles are equally far from the query gets no allele -/
+theorem realign_sound_tie (f14 : Bool) (dist : Seq → Seq → Nat) (v : Variant) (query : Seq) (cigar : Cigar)
+    (i consumed : Nat) (qp : Int) (reference : Seq) (oh : Nat) (w : Window)
+    (hsym : isSymbolic v = false) (hw : window f14 v query cigar i consumed qp reference oh = .ok w)
+    (pr pa : Seq) (hp : w.padded = [pr, pa]) (htie : dist w.query pr = dist w.query pa) :
+    realign f14 dist v none query cigar i consumed qp reference oh = .ok none := by
+  simp [realign, hsym, hw, distances, hp, enumFrom, decideAllele, sortDist, insertDist, htie]
+
+/-- `realign_sound`, exact match: with the true Levenshtein distance, a query that *is* padded allele `h` and differs
+from every other padded allele is assigned `h`. -/
+theorem realign_sound_exact (f14 : Bool) (v : Variant) (query : Seq) (cigar : Cigar)
+    (i consumed : Nat) (qp : Int) (reference : Seq) (oh : Nat) (w : Window)
+    (hsym : isSymbolic v = false) (hw : window f14 v query cigar i consumed qp reference oh = .ok w)
+    (h : Nat) (hh : w.padded[h]? = some w.query)
+    (hne : ∀ k pk, w.padded[k]? = some pk → k ≠ h → pk ≠ w.query) :
+    realign f14 lev v none query cigar i consumed qp reference oh = .ok (some h) := by
+  apply realign_sound_strict f14 lev v query cigar i consumed qp reference oh w hsym hw h w.query hh
+  intro k pk hk hkh
+  rw [lev_self]
+  exact lev_pos_of_ne _ _ (fun e => hne k pk hk hkh e.symm)
+
+/-- the executable distance used by the driver is `lev` -/
+theorem realign_levFast (f14 : Bool) (v : Variant) (r : Option (List Nat)) (query : Seq) (cigar : Cigar)
+    (i consumed : Nat) (qp : Int) (reference : Seq) (oh : Nat) :
+    realign f14 levFast v r query cigar i consumed qp reference oh = realign f14 lev v r query cigar i consumed qp reference oh := by
+  have : (levFast : Seq → Seq → Nat) = lev := by funext s t; exact levFast_eq_lev s t
+  rw [this]
+
+/-! ## `prefixLength_spec` — `cigar_prefix_length` -/
+
+/-- `prefixLength_spec` (repaired N behaviour): for `k > 0` wanted reference bases, `cigar_prefix_length` returns the
+numbers of reference and query bases in the longest prefix of the alignment (written out column by column) that ends
+right after its `k`-th reference base and does not reach an N; in particular it is truncated at the end of the read,
+an insertion directly after the `k`-th base is not counted, clips are not counted. -/
+theorem prefixLength_spec (c : Cigar) (hops : ∀ p ∈ c, prefixOp p.1 = true) (hlen : ∀ p ∈ c, 0 < p.2)
+    (k : Nat) (hk : 0 < k) :
+    cigarPrefixLength true c k = .ok (countRef (takeRef k (expand c)), countQuery (takeRef k (expand c))) := by
+  have := prefixGo_spec c hops hlen 0 0 k hk
+  simpa [cigarPrefixLength] using this
+
+/-- the reported number of reference bases never exceeds the request -/
+theorem prefixLength_le (k : Nat) (cols : List Nat) : countRef (takeRef k cols) ≤ k := by
+  induction cols generalizing k with
+  | nil => cases k <;> simp [takeRef, countRef]
+  | cons x xs ih =>
+    cases k with
+    | zero => simp [takeRef, countRef]
+    | succ k =>
+      simp only [takeRef]
+      split
+      · simp [countRef]
+      · split
+        · rename_i h; have := ih k; simp [countRef, h] at this ⊢; omega
+        · rename_i h; have := ih (k + 1); simp [countRef, h] at this ⊢; omega
+
+/-- without a reference skip the as-is code and the repaired code agree -/
+theorem prefixLength_asis_noN (c : Cigar) (hN : ∀ p ∈ c, p.1 ≠ 3) (k : Nat) :
+    cigarPrefixLength false c k = cigarPrefixLength true c k := prefixGo_noN c hN k 0 0
+
+/-- defect F14 on the as-is model: at an N the *requested* 6 reference bases are reported although only 2 are aligned -/
+example : cigarPrefixLength false [(0, 2), (3, 5), (0, 3)] 6 = .ok (6, 2)
+    ∧ cigarPrefixLength true [(0, 2), (3, 5), (0, 3)] 6 = .ok (2, 2) := by
+  constructor <;> rfl
+
+/-! ## `iterateCigar_spec` — `_iterate_cigar` -/
+
+theorem mem_enumFrom' {α} (l : List α) (n k : Nat) (x : α) :
+    (k, x) ∈ enumFrom n l ↔ n ≤ k ∧ l[k - n]? = some x := by
+  induction l generalizing n with
+  | nil => simp [enumFrom]
+  | cons y ys ih =>
+    simp only [enumFrom, List.mem_cons, Prod.mk.injEq, ih]
+    constructor
+    · rintro (⟨rfl, rfl⟩ | ⟨h1, h2⟩)
+      · simp
+      · refine ⟨by omega, ?_⟩
+        have : k - n = (k - (n + 1)) + 1 := by omega
+        rw [this]; simpa using h2
+    · rintro ⟨h1, h2⟩
+      by_cases hk : k = n
+      · left; subst hk; simp at h2; exact ⟨rfl, h2.symm⟩
+      · right; refine ⟨by omega, ?_⟩
+        have : k - n = (k - (n + 1)) + 1 := by omega
+        rw [this] at h2; simpa using h2
+
+theorem enumFrom_sorted (l : List Nat) (n : Nat) (hs : l.Pairwise (· < ·)) : SortedV (enumFrom n l) := by
+  induction l generalizing n with
+  | nil => simp [enumFrom, SortedV]
+  | cons x xs ih =>
+    simp only [List.pairwise_cons] at hs
+    simp only [enumFrom, SortedV, List.pairwise_cons]
+    refine ⟨?_, ih (n + 1) hs.2⟩
+    intro b hb
+    obtain ⟨k, y⟩ := b
+    have := ((mem_enumFrom' xs (n + 1) k y).1 hb).2
+    exact hs.1 y (List.mem_of_getElem? this)
+
+theorem enumFrom_drop {α} (l : List α) (n j : Nat) : (enumFrom n l).drop j = enumFrom (n + j) (l.drop j) := by
+  induction j generalizing l n with
+  | zero => simp
+  | succ j ih =>
+    cases l with
+    | nil => simp [enumFrom]
+    | cons x xs => simp only [enumFrom, List.drop_succ_cons, ih]; congr 1; omega
+
+/-- `iterateCigar_spec`: for strictly increasing variant positions and CIGAR operators 0–8 the lock-step walk raises no
+error and yields, for the variants from index `j` on, *in order and at most once each*, exactly the variants whose
+position the alignment's coordinate map `locate` finds — in an M/=/X or D operation, or at the reference position of an
+I — together with that operation index, the offset inside it and the query offset. -/
+theorem iterateCigar_spec (positions : List Nat) (j start : Nat) (c : Cigar)
+    (hs : positions.Pairwise (· < ·)) (hops : ∀ p ∈ c, p.1 ≤ 8) :
+    iterateCigar positions j start c =
+      ((varRefsFrom positions j).filterMap (fun v => (locate v.2 0 start 0 c).map (yieldOfLoc v)), none) := by
+  have hsv : SortedV (varRefsFrom positions j) :=
+    List.Pairwise.sublist (List.drop_sublist _ _) (enumFrom_sorted positions 0 hs)
+  unfold iterateCigar
+  rw [iterGo_eq_locateAll c hops 0 start 0 _ (sorted_dropWhile _ hsv _) (by
+    have := dropWhile_sorted_ge _ hsv start
+    simpa using this)]
+  congr 1
+  have hsplit := List.takeWhile_append_dropWhile (p := fun v : VarRef => decide (v.2 < start)) (l := varRefsFrom positions j)
+  conv => rhs; rw [← hsplit, List.filterMap_append]
+  have e : (List.takeWhile (fun v : VarRef => decide (v.2 < start)) (varRefsFrom positions j)).filterMap
+      (fun v => (locate v.2 0 start 0 c).map (yieldOfLoc v)) = [] := by
+    rw [List.filterMap_eq_nil_iff]
+    intro v hv
+    have := takeWhile_lt _ start v hv
+    simp [locate_lt v.2 0 start 0 c this]
+  rw [e]; rfl
+
+/-- the variants a yield can refer to: index ≥ `j`, position = `positions[index]` -/
+theorem mem_varRefsFrom (positions : List Nat) (j k p : Nat) (h : (k, p) ∈ varRefsFrom positions j) :
+    j ≤ k ∧ positions[k]? = some p := by
+  unfold varRefsFrom at h
+  rw [enumFrom_drop] at h
+  have := (mem_enumFrom' _ _ k p).1 h
+  refine ⟨by omega, ?_⟩
+  have h2 := this.2
+  rw [List.getElem?_drop] at h2
+  have e : j + (k - (0 + j)) = k := by omega
+  rwa [e] at h2
+
+/-- `iterateCigar_spec`, meaning of a yield: the split point `(i, consumed)` cuts the CIGAR into a left and a right part
+that re-assemble the alignment column by column; the left part consumes exactly the reference bases from the read start
+to the variant position and `query_pos` query bases (clips included); the operation at the split point is M/=/X, D or I. -/
+theorem iterateCigar_yield_sound (positions : List Nat) (j start : Nat) (c : Cigar)
+    (hs : positions.Pairwise (· < ·)) (hops : ∀ p ∈ c, p.1 ≤ 8) (y : Yield)
+    (hy : y ∈ (iterateCigar positions j start c).1) :
+    ∃ p op len L R, j ≤ y.index ∧ positions[y.index]? = some p
+      ∧ c[y.i]? = some (op, len) ∧ (isMatch op = true ∨ op = 1 ∨ op = 2)
+      ∧ splitLeft c y.i y.consumed = .ok L ∧ splitRight c y.i y.consumed = .ok R
+      ∧ expand (L.reverse ++ R) = expand c
+      ∧ start + refLen L = p ∧ qLen L = y.queryPos := by
+  rw [iterateCigar_spec positions j start c hs hops] at hy
+  simp only [List.mem_filterMap, Option.map_eq_some_iff] at hy
+  obtain ⟨v, hv, t, ht, rfl⟩ := hy
+  obtain ⟨k, p⟩ := v
+  obtain ⟨i', cons, q⟩ := t
+  obtain ⟨hjk, hp⟩ := mem_varRefsFrom positions j k p hv
+  obtain ⟨op, len, _, hc, hop, h1, h2, hr, hq⟩ := locate_sound p c 0 start 0 i' cons q ht
+  simp only [Nat.sub_zero] at hc hr hq
+  have hle : cons ≤ len := by
+    by_cases e : op = 1
+    · have := h1 e; omega
+    · have := h2 e; omega
+  obtain ⟨L, R, hL, hR, hexp, hrl, hql⟩ := split_reassemble c i' cons op len hc hle
+  refine ⟨p, op, len, L, R, hjk, hp, hc, hop, hL, hR, hexp, ?_, ?_⟩
+  · simp only [yieldOfLoc] at *
+    rw [hrl]
+    rcases hop with hm | rfl | rfl
+    · simp [consumesRef, hm]; omega
+    · have := h1 rfl; subst this; simp [consumesRef, isMatch_1]; omega
+    · simp [consumesRef]; omega
+  · simp only [yieldOfLoc]
+    rw [hql, hq]
+    rcases hop with hm | rfl | rfl
+    · simp [consumesQuery, hm]
+    · have := h1 rfl; subst this; simp [consumesQuery, isMatch_1]
+    · simp [consumesQuery, isMatch_2]
+
+/-- `iterateCigar_spec`, no yield outside the aligned span: a yielded variant lies in `[start, start + refLen]` -/
+theorem iterateCigar_within_span (positions : List Nat) (j start : Nat) (c : Cigar)
+    (hs : positions.Pairwise (· < ·)) (hops : ∀ p ∈ c, p.1 ≤ 8) (y : Yield)
+    (hy : y ∈ (iterateCigar positions j start c).1) :
+    ∃ p, positions[y.index]? = some p ∧ start ≤ p ∧ p ≤ start + refLen c := by
+  rw [iterateCigar_spec positions j start c hs hops] at hy
+  simp only [List.mem_filterMap, Option.map_eq_some_iff] at hy
+  obtain ⟨v, hv, t, ht, rfl⟩ := hy
+  obtain ⟨k, p⟩ := v
+  obtain ⟨_, hp⟩ := mem_varRefsFrom positions j k p hv
+  refine ⟨p, hp, ?_, ?_⟩
+  · rcases Nat.lt_or_ge p start with h | h
+    · rw [locate_lt p 0 start 0 c h] at ht; cases ht
+    · exact h
+  · rcases Nat.lt_or_ge (start + refLen c) p with h | h
+    · rw [locate_gt_end p c 0 start 0 h] at ht; cases ht
+    · exact h
+
+/-- … and the position one past the last aligned base is yielded only if the alignment ends in an insertion -/
+theorem iterateCigar_not_at_end (positions : List Nat) (j start : Nat) (c : Cigar)
+    (hs : positions.Pairwise (· < ·)) (hops : ∀ p ∈ c, p.1 ≤ 8)
+    (hI : ∀ k l, c[k]? = some (1, l) → 0 < refLen (c.drop (k + 1))) (y : Yield)
+    (hy : y ∈ (iterateCigar positions j start c).1) :
+    positions[y.index]? ≠ some (start + refLen c) := by
+  rw [iterateCigar_spec positions j start c hs hops] at hy
+  simp only [List.mem_filterMap, Option.map_eq_some_iff] at hy
+  obtain ⟨v, hv, t, ht, rfl⟩ := hy
+  obtain ⟨k, p⟩ := v
+  obtain ⟨_, hp⟩ := mem_varRefsFrom positions j k p hv
+  intro hcon
+  simp only [yieldOfLoc] at hcon
+  rw [hp] at hcon; cases hcon
+  rw [locate_at_end c 0 start 0 hI] at ht; cases ht
+
+/-- `iterateCigar_spec`, no yield inside a reference skip: a variant whose position lies inside an N operation (and not
+exactly where an insertion in front of the N sits) is never yielded -/
+theorem iterateCigar_not_in_N (positions : List Nat) (j start : Nat) (a b : Cigar) (len : Nat)
+    (hs : positions.Pairwise (· < ·)) (hops : ∀ p ∈ a ++ (3, len) :: b, p.1 ≤ 8) (p : Nat)
+    (hin : start + refLen a ≤ p ∧ p < start + refLen a + len)
+    (hI : ∀ k l, a[k]? = some (1, l) → start + refLen (a.take k) ≠ p) (y : Yield)
+    (hy : y ∈ (iterateCigar positions j start (a ++ (3, len) :: b)).1) :
+    positions[y.index]? ≠ some p := by
+  rw [iterateCigar_spec positions j start _ hs hops] at hy
+  simp only [List.mem_filterMap, Option.map_eq_some_iff] at hy
+  obtain ⟨v, hv, t, ht, rfl⟩ := hy
+  obtain ⟨k, p'⟩ := v
+  obtain ⟨_, hp⟩ := mem_varRefsFrom positions j k p' hv
+  intro hcon
+  simp only [yieldOfLoc] at hcon
+  rw [hp] at hcon; cases hcon
+  rw [locate_in_N _ a b len 0 start 0 hin hI] at ht; cases ht
 
 end WhVerif.Props.C06
